@@ -267,9 +267,13 @@ def run(rep: Report, tier: str) -> None:
                                 f"a set-operator query uses `{t.text}{'(' if agg else ' BY'}`: aggregating per column builds a row out of several datapoints (and aggregates skip NULLs), "
                                 f"whereas a set operator returns datapoints of its operands unchanged - e.g. union must return the FIRST operand's datapoint for a shared key, NULL measures included"))
     rep.instance("R05.6", "no-aggregation-in-set-queries", nontrivial=True, sample={"sql_texts": nsk})
+    # ---- R05.8 semantic analysis of set operators pairs the components of its operands by NAME ----
+    rep.rule("R05.8", "Set.validate: operands that declare the same components in another order are compatible; type and nullability of each result component come from the components of that NAME")
+    _set_validate_by_name(P, rep)
     # ---- R05.7 n-ary union: every operand is de-duplicated against ALL operands before it ----
     rep.rule("R05.7", "union of n operands: a datapoint of operand k is dropped iff an EARLIER operand (any of them) has its identifiers - evaluated handler, recognised de-duplication forms")
     _union_dedup(P, rep)
+    _intersect_every(P, rep)
     rep.assumptions = ["operator arity as written in Vtl.g4", "UNION ALL matches columns by position (SQL)"]
 
 
@@ -373,3 +377,71 @@ def _union_dedup(P: Program, rep: Report) -> None:
         rep.note("R05.7: the de-duplication form of the union branch is not one of the recognised forms; not decided (other rules already report this tree)")
         return
     raise AnalysisError("R05.7: the de-duplication form of the union branch is not one of the recognised forms (window over the UNION ALL of all operands; anti-join against all earlier operands)")
+
+
+def _intersect_every(P: Program, rep: Report) -> None:
+    """intersect(D1, D2, D3) keeps the datapoints of D1 whose identifiers are in EVERY other operand: evaluated handler; recognised form:
+    a chain of SEMI JOINs (or EXISTS / IN filters), one per further operand, each against that operand alone, ON the identifiers.
+    setdiff(D1, D2): one ANTI JOIN of D1 against D2 on the identifiers."""
+    import re as _re
+    from sa import structmodel as sm
+    from sa.e6 import Interp, Raised, Unmodelled
+    f = P.func(f"{sm.TRQ}._visit_set_operation")
+    M = sm.Model(P)
+    ds = M.ds("D1", ["A", "B"], ["M"])
+
+    def run_op(op: str, n: int) -> str:
+        kids = [sm.MNode("VarID", value=f"D{k}") for k in range(1, n + 1)]
+        ext = {"self.visit": lambda c: f'SELECT * FROM "{c.value}"', "self._get_dataset_structure": lambda c: ds, "self._get_output_dataset": lambda: None,
+               "quote_name": lambda x: f'"{x}"', "registry.sql": lambda o, *a: " UNION ALL ".join(f"({x})" for x in a), "hasattr": lambda o, x: hasattr(o, x),
+               "self._join_on_clause": lambda ids, a, b: "⟦ON " + ",".join(ids) + "⟧", "CTEBuilder": lambda: None}
+        try:
+            return " ".join(str(Interp(P, externals=ext).call(f, {"self": sm.MTranspiler(), "node": sm.MNode("MulOp", op=op, children=kids), "op": op})).split())
+        except (Unmodelled, Raised) as e:
+            raise AnalysisError(f"R05.7: _visit_set_operation({op}) outside the evaluator's language: {e}")
+    txt = run_op("intersect", 3)
+    rep.instance("R05.7", "intersect/3-operands", sample={"sql": txt[:260]})
+    semis = [(m.start(), m.group(0)) for m in _re.finditer(r"SEMI JOIN \((.*?)\) AS \w+ ON ⟦ON ([^⟧]*)⟧", txt)]
+    per_operand = {k: sum(1 for _p, g in semis if f'"D{k}"' in g and not any(f'"D{j}"' in g for j in (1, 2, 3) if j != k)) for k in (2, 3)}
+    keys_ok = all(_re.search(r"⟦ON A,B⟧", g) for _p, g in semis)
+    if not semis or any(v != 1 for v in per_operand.values()) or not keys_ok:
+        rep.add(transp.fnd("R05.7", "intersect/every-operand", f, f.node.lineno,
+                           f"intersect(D1, D2, D3) is written `{txt[:200]}`: each further operand must filter D1 on its own (one SEMI JOIN per operand, on the identifiers A, B); "
+                           f"found {per_operand} single-operand semi-joins - a key present in only SOME of the other operands must not survive"))
+    txt2 = run_op("setdiff", 2)
+    rep.instance("R05.7", "setdiff/2-operands", sample={"sql": txt2[:200]})
+    if not _re.search(r'FROM \(SELECT \* FROM "D1"\) AS \w+ ANTI JOIN \(SELECT \* FROM "D2"\) AS \w+ ON ⟦ON A,B⟧', txt2):
+        rep.add(transp.fnd("R05.7", "setdiff/anti-join", f, f.node.lineno, f"setdiff(D1, D2) is written `{txt2[:200]}`: expected D1 ANTI JOIN D2 on the identifiers A, B"))
+
+
+def _set_validate_by_name(P: Program, rep: Report) -> None:
+    from sa import structmodel as sm
+    from sa.e6 import ClassVal, Interp, Raised, Unmodelled
+    M = sm.Model(P)
+    f = P.func("vtlengine.Operators.Set.Set.validate")
+    T = {n: ClassVal(f"vtlengine.DataTypes.{n}") for n in ("Integer", "Number", "String", "Boolean")}
+
+    def mk(name: str, order: List[str], nullable: Dict[str, bool]) -> sm.MDS:
+        spec = {"A": ("IDENTIFIER", "Integer"), "B": ("IDENTIFIER", "String"), "M": ("MEASURE", "Number"), "S": ("MEASURE", "String")}
+        comps = {n: sm.MComp(n, M.roles[spec[n][0]], T[spec[n][1]], nullable.get(n, spec[n][0] != "IDENTIFIER")) for n in order}
+        return sm.MDS(name, comps, M.roles)
+    for cls in ("Union", "Intersection", "Setdiff", "Symdiff"):
+        if f"vtlengine.Operators.Set.{cls}" not in P.classes:
+            continue
+        d1 = mk("DS_1", ["A", "B", "M", "S"], {"M": False, "S": True})
+        d2 = mk("DS_2", ["B", "A", "S", "M"], {"M": True, "S": False})
+        try:
+            r = Interp(P, externals={"Dataset": M.mk_dataset, "isinstance": sm._isinstance}, max_steps=400000).call(
+                f, {"operands": [d1, d2]}, bound_cls=ClassVal(f"vtlengine.Operators.Set.{cls}"))
+            got = {n: (c.data_type.short if isinstance(c.data_type, ClassVal) else str(c.data_type), c.nullable) for n, c in r.components.items()}
+            verdict = ("ok", got)
+        except Raised as e:
+            verdict = ("raise", getattr(e.exc, "code", None) or getattr(e.exc, "kind", None))
+        except Unmodelled as e:
+            raise AnalysisError(f"R05.8: Set.validate outside the evaluator's language: {e}")
+        rep.instance("R05.8", f"by-name/{cls}", nontrivial=True, sample={"result": verdict})
+        want = {"A": ("Integer", False), "B": ("String", False), "M": ("Number", True), "S": ("String", True)}
+        if verdict[0] != "ok" or verdict[1] != want:
+            rep.add(transp.fnd("R05.8", f"by-name/{cls}", f, f.node.lineno,
+                               f"{cls.lower()}(DS_1[A, B, M, S], DS_2[B, A, S, M]) - the same components declared in another order: semantic analysis gives {verdict[1]}; "
+                               f"expected acceptance with {want} (each component typed and made nullable from the components of the same NAME in the operands)"))
